@@ -1,0 +1,32 @@
+//go:build verif
+// +build verif
+
+package hc
+
+import (
+	"time"
+
+	hostpkg "github.com/samaritan-proxy/samaritan/host"
+	"github.com/samaritan-proxy/samaritan/pb/config/hc"
+	"github.com/samaritan-proxy/samaritan/proc/internal/log"
+)
+
+type verifChecker func(addr string, timeout time.Duration) error
+
+func (f verifChecker) Check(addr string, timeout time.Duration) error { return f(addr, timeout) }
+
+// VerifNewMonitor creates a monitor whose checker is the given function. The
+// monitor is not started, use VerifCheckOnce to run one round of checks.
+func VerifNewMonitor(config *hc.HealthCheck, hostSet *hostpkg.Set, logger log.Logger,
+	check func(addr string, timeout time.Duration) error) (*Monitor, error) {
+	m, err := NewMonitor(config, hostSet, logger)
+	if err != nil || m == nil {
+		return m, err
+	}
+	m.checker = verifChecker(check)
+	return m, nil
+}
+
+// VerifCheckOnce runs one round of checks over all hosts, without timers.
+func (m *Monitor) VerifCheckOnce() { m.checkHosts() }
+
